@@ -331,6 +331,13 @@ def corpus_cases(prop):
     return out
 
 
+def corpus_variant(prop, name):
+    first = open(os.path.join(core.VERIF, "corpus", prop, name)).readline()
+    if first.startswith("# variant="):
+        return first.strip().split("=", 1)[1]
+    return None
+
+
 def _run_check(cfg, tier, seed, work, t0):
     prop = cfg.prop
     violations = []      # (kind, replay path, known-id or None, text)
@@ -377,6 +384,9 @@ def _run_check(cfg, tier, seed, work, t0):
         vi += 1
         # corpus first
         for name, lines in corpus_cases(prop):
+            cv = corpus_variant(prop, name)
+            if cv is not None and cv != variant.get("name", ""):
+                continue
             c, _ = runner.replay_case(lines, variant, sub="corpus")
             for fld in ("spec_viol", "l1", "l2", "errors"):
                 getattr(oc, fld).extend([("corpus:" + name,) + tuple(x[1:]) if fld != "errors" else x for x in getattr(c, fld)])
@@ -406,6 +416,18 @@ def _run_check(cfg, tier, seed, work, t0):
         d, s = tag.split("/")
         return read_lines(work.path(d, "ops-%s.txt" % s))
 
+    def variant_of(tag):
+        """the variant a shard directory belongs to: v<k>/… (main batches), s<k>-<seed>/… (search batches)"""
+        d = tag.split("/")[0]
+        try:
+            if d.startswith("v"):
+                return cfg.variants[int(d[1:]) - 1]
+            if d.startswith("s"):
+                return cfg.variants[int(d[1:].split("-")[0])]
+        except (ValueError, IndexError):
+            pass
+        return cfg.variants[0]
+
     def get_case(tag, start):
         if tag.startswith("corpus:"):
             return dict(corpus_cases(prop))[tag[7:]]
@@ -414,7 +436,7 @@ def _run_check(cfg, tier, seed, work, t0):
     seen_sig = set()
     for (tag, start, i, iout, sout) in oc.spec_viol[:200]:
         case = get_case(tag, start)
-        variant = cfg.variants[0]
+        variant = variant_of(tag)
         small, confirmed = (case, True)
         if len(violations) < int(os.environ.get('VERIF_MAXVIOL', '3')):
             small, confirmed = runner.shrink(case, variant, "spec")
@@ -423,7 +445,7 @@ def _run_check(cfg, tier, seed, work, t0):
                    impl=read_lines(os.path.join(d2, "impl-0.txt")) if os.path.exists(os.path.join(d2, "impl-0.txt")) else [],
                    model=read_lines(os.path.join(d2, "model-0.txt")) if os.path.exists(os.path.join(d2, "model-0.txt")) else [],
                    first_failure=dict(impl=iout, spec=sout, line=i - start),
-                   how_to_replay="./check %s --replay <this file>" % prop,
+                   how_to_replay="./check %s --replay <this file>" % prop, variant=variant.get("name", ""),
                    reproduced_on_replay=bool(c2.spec_viol))
         kid = cfg.known_match(rep)
         if kid and any(k["id"] == kid for k in known):
@@ -466,8 +488,8 @@ def _run_check(cfg, tier, seed, work, t0):
             if first:
                 tag, start, i, a, b = first
                 case = get_case(tag, start)
-                small, _ = runner.shrink(case, cfg.variants[0], "l1" if kind == "L1" else "l2")
-                c2, d2 = runner.replay_case(small, cfg.variants[0])
+                small, _ = runner.shrink(case, variant_of(tag), "l1" if kind == "L1" else "l2")
+                c2, d2 = runner.replay_case(small, variant_of(tag))
                 rep["broken_correspondence"] = dict(
                     component=cfg.component, level=kind, first_differing_step=i - start, impl=a, model=b, ops=small,
                     impl_out=read_lines(os.path.join(d2, "impl-0.txt")) if os.path.exists(os.path.join(d2, "impl-0.txt")) else [],
@@ -523,7 +545,15 @@ def run_replay(cfg, path, seed):
         else:
             ops = [l for l in open(path).read().split("\n") if l and not l.startswith("#")]
         r = Runner(cfg, "quick", seed, work)
-        oc, d = r.replay_case(ops, cfg.variants[0])
+        vname = rep.get("variant", "") if path.endswith(".json") else ""
+        variant = next((v for v in cfg.variants if v.get("name", "") == vname), cfg.variants[0])
+        # a plain ops file may name its variant in a first line `# variant=<name>`
+        if not path.endswith(".json"):
+            first = open(path).readline()
+            if first.startswith("# variant="):
+                vn = first.strip().split("=", 1)[1]
+                variant = next((v for v in cfg.variants if v.get("name", "") == vn), variant)
+        oc, d = r.replay_case(ops, variant)
         imp = read_lines(os.path.join(d, "impl-0.txt")) if os.path.exists(os.path.join(d, "impl-0.txt")) else []
         mod = read_lines(os.path.join(d, "model-0.txt")) if os.path.exists(os.path.join(d, "model-0.txt")) else []
         for a, b, c in zip(ops, imp, mod):
